@@ -199,6 +199,23 @@ CLAIMED = {
         'Trusted: TLC; the generator; whole-column references are not '
         'generated.',
         'DESIGN.md 4/C15'),
+    'C16': (
+        'TLC model checking of Write.tla (writing node by node in every order '
+        'gives Out(Sem) at every solved cell, the rest untouched) + replay: '
+        'write into fresh books, loaded books and to disk, independent '
+        'read-back, compare()',
+        'Write.tla writes a solution node by node - single cells and '
+        'multi-cell ranges whose rectangles overlap them - in every order and '
+        'TLC checks WriteExact and Untouched. Every generated workbook is '
+        'calculated without and with supplied inputs (including a populated '
+        'cell made blank) and written by the real write() into fresh books, '
+        'to disk (re-read with plain openpyxl, an independent reader) and into '
+        'the loaded books; every cell of every book is compared with Out(Sem) '
+        'at its own sheet and coordinates (errors as text, blanks empty, '
+        'logicals not numbers), unsolved cells with the previous content, and '
+        'compare() with the model\'s own files must report nothing.',
+        'Trusted: TLC; openpyxl as the independent reader; the generator.',
+        'DESIGN.md 4/C16'),
     'C18': (
         'TLC model checking of ShuntingYard.tla/Grammar.tla (every token '
         'sequence ends acc or rej; acc only if the grammar accepts) and '
